@@ -376,9 +376,48 @@ def atoms_text():
     emit("ch_next_end_raw", chp, N, R.parse_expr(m.group(2)))
     emit("ch_clamp_end", chp, N, R.assign_expr(b, "chunk_end", "=", 1))
     emit("ch_done", chp, B, R.cond_over(b, {"chunk_start", "file_size"}))
+    # --- summary statistics: what a value / a coverage piece adds, and what the running extrema start from -------------
+    F = "FConst"
+    src = read("bigtools/src/bbi/bigwigwrite.rs")
+    b = R.fn_region(src, "process_val")
+    sp = [("len", I), ("val", I), ("summary_min_val", I), ("summary_max_val", I)]
+    emit("ws_bases_add", sp, I, R.assign_expr(b, "summary.bases_covered", "+="))
+    emit("ws_sum_add", sp, I, R.assign_expr(b, "summary.sum", "+="))
+    emit("ws_sumsq_add", sp, I, R.assign_expr(b, "summary.sum_squares", "+="))
+    emit("ws_min", sp, I, R.assign_expr(b, "summary.min_val", "="))
+    emit("ws_max", sp, I, R.assign_expr(b, "summary.max_val", "="))
+    creates = [m.start() for m in re.finditer(r"\bfn\s+create\s*\(", src)]
+    if len(creates) < 2:
+        raise R.Unsupported("bigwigwrite.rs: the two `create` functions (full / no-zooms process) not found")
+    for tag, pos in (("full", creates[0]), ("nozoom", creates[1])):
+        body = re.sub(r"//[^\n]*", "", R.find_fn(src[pos:], "create"))
+        emit(f"ws_min_init_{tag}", [], F, R.field_expr(body, "min_val"))
+        emit(f"ws_max_init_{tag}", [], F, R.field_expr(body, "max_val"))
+    b = R.fn_region(read("bigtools/src/bbi/bigbedwrite.rs"), "process_val", after="match summary")
+    bp = [("len", I), ("val", I), ("summary_min_val", I), ("summary_max_val", I)]
+    emit("bs_first_bases", bp, I, R.field_expr(b, "bases_covered"))
+    emit("bs_first_min", bp, I, R.field_expr(b, "min_val"))
+    emit("bs_first_max", bp, I, R.field_expr(b, "max_val"))
+    emit("bs_first_sum", bp, I, R.field_expr(b, "sum"))
+    emit("bs_first_sumsq", bp, I, R.field_expr(b, "sum_squares"))
+    emit("bs_bases_add", bp, I, R.assign_expr(b, "summary.bases_covered", "+="))
+    emit("bs_sum_add", bp, I, R.assign_expr(b, "summary.sum", "+="))
+    emit("bs_sumsq_add", bp, I, R.assign_expr(b, "summary.sum_squares", "+="))
+    emit("bs_min", bp, I, R.assign_expr(b, "summary.min_val", "="))
+    emit("bs_max", bp, I, R.assign_expr(b, "summary.max_val", "="))
+    b = R.fn_region(read("bigtools/src/utils/misc.rs"), "stats_for_bed_item")
+    tp = [("num_bases", I), ("val_value", I), ("min", I), ("max", I)]
+    emit("st_bases_add", tp, I, R.assign_expr(b, "bases", "+="))
+    emit("st_sum_add", tp, I, R.assign_expr(b, "sum", "+="))
+    emit("st_min", tp, I, R.assign_expr(b, "min", "="))
+    emit("st_max", tp, I, R.assign_expr(b, "max", "="))
+    emit("st_min_init", [], F, R.let_expr(b, "min"))
+    emit("st_max_init", [], F, R.let_expr(b, "max"))
     return ("/-! GENERATED by tools/extract_consts.py (tools/rs2lean.py) from /repo's working tree — do not edit.\n"
             "    The arithmetic and branch conditions of the zoom tilers, the coverage sweeps, the section cut and the\n"
             "    variable-step and fixed-step decoders, of FileView's read and seek, of the chromosome bisection and of the size-based chunker, each translated from the expression in the Rust source. -/\nnamespace Gen\n\n"
+            "/-- the named constants of `f64` that running extrema start from (floats themselves are not modelled) -/\n"
+            "inductive FConst where | posMax | negMax | minPositive | nan | posInf | negInf | epsilon\nderiving DecidableEq, Repr\n\n"
             + "\n\n".join(out) + "\n\nend Gen\n")
 
 
